@@ -132,6 +132,12 @@ class SimLoop(asyncio.SelectorEventLoop):
 
     def _on_exception(self, loop, context: dict) -> None:
         exc = context.get("exception")
+        message = str(context.get("message"))
+        if isinstance(exc, asyncio.CancelledError) and "StreamReaderProtocol.connection_made" in message:
+            # CPython 3.12.1 artefact: the done-callback of a *cancelled* client_connected_cb task calls
+            # task.exception(), which raises CancelledError; it says nothing about hypercorn
+            self.sim.probe("asyncio.cancelled_client_cb")
+            return
         self.exc_contexts.append((context.get("message"), repr(exc)))
         self.sim.rec("loop.exception", str(context.get("message")), repr(exc))
 
